@@ -4,7 +4,7 @@ import re
 from analysis import (Prov, Guards, fmt, fmt_short, walk, roots, short, comparison, find_calls, callee_matches,
                       must_pass, path_to, describe_path, peel_await, edge_label)
 from facts import AnchorError, strip_closure
-from harness import Rule
+from harness import Rule, guarded
 
 PID = "C01"
 EXPLANATION = (
@@ -567,5 +567,5 @@ def r6(ctx):
 
 
 def run(ctx):
-    a, b = r1_r2(ctx)
-    return [a, b, r3(ctx), r4(ctx), r5(ctx), r6(ctx)]
+    G = lambda l, f, *a: guarded("C01." + l, f, ctx, *a)
+    return G("R1-R2", r1_r2) + G("R3", r3) + G("R4", r4) + G("R5", r5) + G("R6", r6)
